@@ -1,8 +1,6 @@
 package main
 
 import (
-	"os"
-	"runtime/pprof"
 	"fmt"
 	"slices"
 	"sort"
@@ -34,11 +32,6 @@ import (
 func init() { register("C05", runC05) }
 
 func runC05(c *Ctx) {
-	if p := os.Getenv("C05_PROF"); p != "" {
-		f, _ := os.Create(p)
-		pprof.StartCPUProfile(f)
-		defer pprof.StopCPUProfile()
-	}
 	c05Group(c, "k256", cK256, fK256, 1)
 	c05Group(c, "ed25519", cEd25519, fEd25519, 2)
 	c05Group(c, "bls12381g1", cBLSG1, fBLS, 3)
